@@ -842,9 +842,9 @@ impl Values<bool> for Intervals<bool> {
 
 impl Values<i64> for Intervals<i64> {
     fn values_len(&self) -> Option<usize> {
-        let min = (*self.min()?).clamp(-(self.capacity as i64), self.capacity as i64);
-        let max = (*self.max()?).clamp(-(self.capacity as i64), self.capacity as i64);
-        Some((max - min) as usize)
+        // The span of the bounds, saturated at the capacity (the bounds may be i64::MIN and i64::MAX)
+        let span = (*self.max()? as i128) - (*self.min()? as i128);
+        Some(span.clamp(0, self.capacity as i128) as usize)
     }
     fn max_value_len(&self) -> usize {
         self.capacity
